@@ -86,7 +86,9 @@ REL = [
 PLACEMENTS = ("module", "function", "class", "global_decl", "captured", "captured_by_class",
               # the ONLY import of the program sits two or three scopes deep, or in a nested block
               "nested_function", "method", "class_in_function", "method_of_nested_class",
-              "if_branch", "else_branch", "for_body", "while_body", "loop_in_function")
+              "if_branch", "else_branch", "for_body", "while_body", "loop_in_function",
+              # the import is the ONLY statement of a taken branch (its lowered value decides nothing)
+              "if_branch_in_class", "if_branch_global_decl", "elif_branch_in_function")
 
 
 def program(stmt, names, where):
@@ -120,6 +122,15 @@ def program(stmt, names, where):
         return "def FF():\n    class KK:\n        def mm(self):\n%s\n    KK().mm()\nFF()\n" % ind(3, lines + [show])
     if where == "if_branch":
         return "if P(1, 1):\n%s\nelse:\n    P(2)\n%s\n" % (ind(1, lines), show)
+    if where == "if_branch_in_class":
+        return "class KK:\n    if P(1, 1):\n%s\n    else:\n        P(2)\n    %s\nL('cls', %s)\n" % (
+            ind(2, lines), show, ", ".join("KK." + n for n in names))
+    if where == "if_branch_global_decl":
+        return "def FF():\n    global %s\n    if P(1, 1):\n%s\n    else:\n        P(2)\n    P(3)\nFF()\n%s\n" % (
+            ", ".join(names), ind(2, lines), show)
+    if where == "elif_branch_in_function":
+        return "def FF():\n    if P(1, 0):\n        P(2)\n    elif P(3, 1):\n%s\n    elif P(4, 1):\n        P(5)\n    else:\n        P(6)\n    %s\nFF()\n" % (
+            ind(2, lines), show)
     if where == "else_branch":
         return "if not P(1, 1):\n    P(2)\nelse:\n%s\n%s\n" % (ind(1, lines), show)
     if where == "for_body":
